@@ -97,6 +97,9 @@ pub enum CasKind {
 }
 
 pub fn cas_h<S: Strat>(kind: CasKind, fill: bool) {
+    // Only compare_and_swap and plain loads/swaps run here: whatever goes wrong is (also) a
+    // failure of compare_and_swap to be the atomic operation C05 describes.
+    rt::set_context_tag("C05");
     let a = V::new(1);
     let a_main = rt::quiet(|| a.clone());
     let c = Cont::<S>::new(0, a);
@@ -114,8 +117,16 @@ pub fn cas_h<S: Strat>(kind: CasKind, fill: bool) {
             let l = g.peek_label();
             use_value(&g, l, "compare_and_swap result");
             let old = guard_into_inner(g);
+            let keep = if kind == CasKind::VsReader {
+                // Against a plain reader the replaced value dies as early as it can.
+                drop(old);
+                drop(cur);
+                Vec::new()
+            } else {
+                vec![old, cur]
+            };
             release(h);
-            vec![old, cur]
+            keep
         }));
     }
     match kind {
@@ -221,6 +232,7 @@ fn rcu_inc<S: Strat>(c: &Cont<S>, me: u64) -> V {
 }
 
 pub fn rcu_h<S: Strat>(kind: RcuKind, fill: bool) {
+    rt::set_context_tag("C06");
     let c = Cont::<S>::new(0, V::new(1));
     let other = Cont::<S>::new(1, V::new(50));
     let fil = filler::<S>();
@@ -252,8 +264,16 @@ pub fn rcu_h<S: Strat>(kind: RcuKind, fill: bool) {
             };
             let l = old.peek_label();
             use_value(&old, l, "rcu result");
+            let keep = if kind == RcuKind::VsReader {
+                // Against a plain reader the replaced value dies at once: a guard the reader
+                // obtained without the writer noticing its debt is then a use after free.
+                drop(old);
+                Vec::new()
+            } else {
+                vec![old]
+            };
             release(h);
-            vec![old]
+            keep
         }));
     }
     {
